@@ -33,15 +33,15 @@ def trp2 (m : Nat → Nat) (p : Nat × Val) : Nat × Val := (p.1, trf m p.2)
 /-! ## The fragment F2a -/
 
 /-- the global names that are not first-order builtins; the fragment does not mention them -/
-def hoNames : List String := ["map", "apply", "force", "substitute"]
+def hoNames : List String := ["substitute"]
 
 def okSym (x : String) : Bool := !hoNames.contains x
 
 /-- a name the fragment may bind: no builtin of either kind -/
 def okName (x : String) : Bool := okBinder x && okSym x
 
-/-- a parameter: such a name, not lazy -/
-def okParam (p : String) : Bool := okName p && !p.startsWith "#"
+/-- a parameter: such a name (`#p`: a lazy parameter) -/
+def okParam (p : String) : Bool := okName p
 
 /-- the rest parameter of a variadic function, if there is one -/
 def okRest : Option String → Bool
@@ -154,16 +154,66 @@ def Fz (ex : Bool) (self : String) : Expr → Bool
   | .or_ es => Ff true self (.or_ es)
   | .for_ l i t s b => if ex then Fx [] self (.for_ l i t s b) else Ff true self (.for_ l i t s b)
   | .fn ps rest body => Ff true self (.fn ps rest body)
-  | .defn name ps rest body => Ff true self (.defn name ps rest body)
+  | .defn name ps rest body => Ff true self (.defn name ps rest body) ||
+      (okRest rest && okName name && (name != "") && decide (ps ++ rest.toList).Nodup && ps.all okParam && !body.isEmpty
+        && FzList ex name body)
   | _ => false
+/-- a statement before the last one of a body: a form of F2 (`ex`: whose loops may `break`/`continue`), or a nested
+`defn` whose body is again in `FzList` (self tail calls, loops with exits — in nested functions) -/
+def Fs (ex : Bool) (self : String) : Expr → Bool
+  | .defn name ps rest body => (if ex then Fx [] self (.defn name ps rest body) else Ff true self (.defn name ps rest body)) ||
+      (okRest rest && okName name && (name != "") && decide (ps ++ rest.toList).Nodup && ps.all okParam && !body.isEmpty
+        && FzList ex name body)
+  | .call f args => if ex then Fx [] self (.call f args) else Ff true self (.call f args)
+  | .begin_ es => if ex then Fx [] self (.begin_ es) else Ff true self (.begin_ es)
+  | .cond arms d => if ex then Fx [] self (.cond arms d) else Ff true self (.cond arms d)
+  | .newScope es => if ex then Fx [] self (.newScope es) else Ff true self (.newScope es)
+  | .let_ seq bs body => if ex then Fx [] self (.let_ seq bs body) else Ff true self (.let_ seq bs body)
+  | .int v => if ex then Fx [] self (.int v) else Ff true self (.int v)
+  | .bool v => if ex then Fx [] self (.bool v) else Ff true self (.bool v)
+  | .str v => if ex then Fx [] self (.str v) else Ff true self (.str v)
+  | .nilLit => if ex then Fx [] self .nilLit else Ff true self .nilLit
+  | .sym x => if ex then Fx [] self (.sym x) else Ff true self (.sym x)
+  | .arr es => if ex then Fx [] self (.arr es) else Ff true self (.arr es)
+  | .def_ x e => if ex then Fx [] self (.def_ x e) else Ff true self (.def_ x e)
+  | .set_ x e => if ex then Fx [] self (.set_ x e) else Ff true self (.set_ x e)
+  | .and_ es => if ex then Fx [] self (.and_ es) else Ff true self (.and_ es)
+  | .or_ es => if ex then Fx [] self (.or_ es) else Ff true self (.or_ es)
+  | .for_ l i t s b => if ex then Fx [] self (.for_ l i t s b) else Ff true self (.for_ l i t s b)
+  | .fn ps rest body => if ex then Fx [] self (.fn ps rest body) else Ff true self (.fn ps rest body)
+  | .assign a b => if ex then Fx [] self (.assign a b) else Ff true self (.assign a b)
+  | .bad a => if ex then Fx [] self (.bad a) else Ff true self (.bad a)
+  | .break_ l => if ex then Fx [] self (.break_ l) else Ff true self (.break_ l)
+  | .continue_ l => if ex then Fx [] self (.continue_ l) else Ff true self (.continue_ l)
 def FzList (ex : Bool) (self : String) : List Expr → Bool
   | [] => true
   | [e] => Fz ex self e
-  | e :: e' :: es => (if ex then Fx [] self e else Ff true self e) && FzList ex self (e' :: es)
+  | e :: e' :: es => Fs ex self e && FzList ex self (e' :: es)
 def FzArms (ex : Bool) (self : String) : List (Expr × Expr) → Bool
   | [] => true
   | (p, b) :: r => Ff true self p && Fz ex self b && FzArms ex self r
 end
+
+/-- the statements of F2 (resp. Fx) are statements of a body -/
+theorem fs_of_stmt {ex : Bool} {self : String} {e : Expr} (h : (if ex then Fx [] self e else Ff true self e) = true) :
+    Fs ex self e = true := by
+  cases e <;> first | (rw [Fs]; exact h) | (rw [Fs, h]; rfl)
+
+/-- a statement of a body: as before, or a nested `defn` with a body of `FzList` -/
+theorem fs_cases {ex : Bool} {self : String} {e : Expr} (h : Fs ex self e = true) :
+    (if ex then Fx [] self e else Ff true self e) = true ∨
+      ∃ name ps rest body, e = .defn name ps rest body ∧ okRest rest = true ∧ okName name = true ∧ name ≠ ""
+        ∧ (ps ++ rest.toList).Nodup ∧ (∀ p ∈ ps, okParam p = true) ∧ body ≠ [] ∧ FzList ex name body = true := by
+  cases e with
+  | defn name ps rest body =>
+    rw [Fs] at h
+    simp only [Bool.or_eq_true] at h
+    rcases h with h | h
+    · exact Or.inl h
+    · simp only [Bool.and_eq_true, bne_iff_ne, ne_eq, decide_eq_true_eq, Bool.not_eq_true', List.isEmpty_eq_false_iff,
+        List.all_eq_true] at h
+      exact Or.inr ⟨name, ps, rest, body, rfl, h.1.1.1.1.1.1, h.1.1.1.1.1.2, h.1.1.1.1.2, h.1.1.1.2, h.1.1.2, h.1.2, h.2⟩
+  | _ => rw [Fs] at h; exact Or.inl h
 
 mutual
 theorem fz_of_ff : ∀ (self : String) (e : Expr), Ff true self e = true → Fz false self e = true
@@ -199,7 +249,7 @@ theorem fz_of_ff : ∀ (self : String) (e : Expr), Ff true self e = true → Fz 
   | self, .or_ es, h => by rw [Fz]; exact h
   | self, .for_ l i t s b, h => by rw [Fz]; simpa using h
   | self, .fn ps rest body, h => by rw [Fz]; exact h
-  | self, .defn name ps rest body, h => by rw [Fz]; exact h
+  | self, .defn name ps rest body, h => by rw [Fz, h]; rfl
   | self, .assign _ _, h => by simp [Ff] at h
   | self, .bad _, h => by simp [Ff] at h
   | self, .break_ _, h => by simp [Ff] at h
@@ -211,8 +261,8 @@ theorem fzList_of_ff : ∀ (self : String) (es : List Expr), FfList true self es
     rw [FzList]; exact fz_of_ff self e h.1
   | self, e :: e' :: es, h => by
     rw [FfList] at h; simp only [Bool.and_eq_true] at h
-    rw [FzList]; simp only [Bool.and_eq_true, Bool.false_eq_true, if_false]
-    exact ⟨h.1, fzList_of_ff self (e' :: es) h.2⟩
+    rw [FzList]; simp only [Bool.and_eq_true]
+    exact ⟨fs_of_stmt (by simpa using h.1), fzList_of_ff self (e' :: es) h.2⟩
 theorem fzArms_of_ff : ∀ (self : String) (arms : List (Expr × Expr)), FfArms true self arms = true → FzArms false self arms = true
   | _, [], _ => by rw [FzArms]
   | self, (p, b) :: r, h => by
@@ -496,7 +546,8 @@ theorem takeToBoundary_idem (isFn : Nat → Bool) : ∀ (l : List (Option Nat)),
 
 /-- `FnChainF s frames seg k f`: what the walk along the parent chain of function `f` searches, after the
 segment `seg` was searched and the static chain goes on at `k`: helper functions of operand
-evaluation (closing stack = a suffix of the segment just searched: nothing new); a closure object
+evaluation (closing stack = a suffix of the segment just searched: nothing new; `sfx`: the helper of
+`force`, whose closing stack is the whole captured stack — its top segment is such a suffix); a closure object
 made for the environment `e = k` (its closing stack is chained from `e`; the walk goes on with the
 function that made it); a parentless function when the static chain is exhausted. -/
 inductive FnChainF (s : St) (frames : List Ref.Frame) : List (Option Nat) → Option Nat → Nat → Prop
@@ -508,6 +559,10 @@ inductive FnChainF (s : St) (frames : List Ref.Frame) : List (Option Nat) → Op
   | clos (seg : List (Option Nat)) (e f p : Nat) (k' : Option Nat) : f < s.fns.length → (fnOf s f).parent = some p → p < f →
       ChainF (isFnScope s) frames k' e (fnOf s f).closing → FnChainF s frames (fnOf s f).closing k' p →
       FnChainF s frames seg (some e) f
+  | sfx (seg : List (Option Nat)) (k : Option Nat) (f p : Nat) : f < s.fns.length → (fnOf s f).parent = some p → p < f →
+      (∀ i, some i ∈ Scope.takeToBoundary (isFnScope s) (fnOf s f).closing → i < s.scopes.length) →
+      (∃ t, Scope.takeToBoundary (isFnScope s) seg = t ++ Scope.takeToBoundary (isFnScope s) (fnOf s f).closing) →
+      FnChainF s frames seg k p → FnChainF s frames seg k f
 
 theorem FnChainF.lt {s frames seg k f} (h : FnChainF s frames seg k f) : f < s.fns.length := by
   cases h <;> assumption
@@ -532,6 +587,14 @@ theorem lookupChainG {m : Nat → Nat} {s : St} {rs : Ref.St} (hv : VarsRel m s 
     obtain ⟨j, rfl⟩ : ∃ j, fuel = j + 1 := ⟨fuel - 1, by omega⟩
     obtain ⟨t, ht⟩ := hs
     have hclo := lookupUntilFn_seg_suffix s x t seg _ ht hseg
+    simp only [lookupChain, hpar, hclo]
+    exact ih hseg j (by omega)
+  | sfx seg k f p hlt hpar hpf _ hs _ ih =>
+    intro hseg fuel hfu
+    obtain ⟨j, rfl⟩ : ∃ j, fuel = j + 1 := ⟨fuel - 1, by omega⟩
+    obtain ⟨t, ht⟩ := hs
+    have hclo := lookupUntilFn_seg_suffix s x t seg _ ht hseg
+    rw [lookupUntilFn_takeToBoundary] at hclo
     simp only [lookupChain, hpar, hclo]
     exact ih hseg j (by omega)
   | clos seg e f p k' hlt hpar hpf hch _ ih =>
@@ -559,6 +622,14 @@ theorem lookupChain_none_root {s : St} {frames : List Ref.Frame} (x : String) :
     obtain ⟨j, rfl⟩ : ∃ j, fuel = j + 1 := ⟨fuel - 1, by omega⟩
     obtain ⟨t, ht⟩ := hs
     have hclo := lookupUntilFn_seg_suffix s x t seg _ ht hseg
+    simp only [lookupChain, hpar, hclo] at hn
+    exact ih hk hseg j (by omega) hn
+  | sfx seg k f p hlt hpar hpf _ hs _ ih =>
+    intro hk hseg fuel hfu hn
+    obtain ⟨j, rfl⟩ : ∃ j, fuel = j + 1 := ⟨fuel - 1, by omega⟩
+    obtain ⟨t, ht⟩ := hs
+    have hclo := lookupUntilFn_seg_suffix s x t seg _ ht hseg
+    rw [lookupUntilFn_takeToBoundary] at hclo
     simp only [lookupChain, hpar, hclo] at hn
     exact ih hk hseg j (by omega) hn
   | clos seg e f p k' hlt hpar hpf hch _ ih =>
@@ -677,11 +748,28 @@ theorem takeToBoundary_chain {isFn isFn' : Nat → Bool} {frames : List Ref.Fram
     have e2 : Scope.isFnElem isFn (some env) = true := hfl0
     simp only [Scope.takeToBoundary, e, e2, if_true]
 
+theorem ttb_congr {isFn isFn' : Nat → Bool} : ∀ (l : List (Option Nat)),
+    (∀ i, some i ∈ Scope.takeToBoundary isFn l → isFn' i = isFn i) →
+    Scope.takeToBoundary isFn' l = Scope.takeToBoundary isFn l
+  | [], _ => rfl
+  | none :: rest, h => by
+    simp only [Scope.takeToBoundary, Scope.isFnElem, Bool.false_eq_true, if_false] at h ⊢
+    rw [ttb_congr rest (fun i hi => h i (List.mem_cons_of_mem _ hi))]
+  | some j :: rest, h => by
+    have e : Scope.isFnElem isFn' (some j) = Scope.isFnElem isFn (some j) :=
+      h j (by simp only [Scope.takeToBoundary]; split <;> simp)
+    by_cases hj : Scope.isFnElem isFn (some j) = true
+    · simp only [Scope.takeToBoundary, e, hj, if_true]
+    · have hj' : Scope.isFnElem isFn (some j) = false := by simpa using hj
+      simp only [Scope.takeToBoundary, e, hj', Bool.false_eq_true, if_false] at h ⊢
+      rw [ttb_congr rest (fun i hi => h i (List.mem_cons_of_mem _ hi))]
+
 theorem FnChainF.transfer {s s' : St} {frames frames' : List Ref.Frame} (B : Nat)
     (hfl : ∀ i, i < B → isFnScope s' i = isFnScope s i)
     (hext : ∀ (i : Nat) (fr : Ref.Frame), frames[i]? = some fr →
       ∃ fr' : Ref.Frame, frames'[i]? = some fr' ∧ fr'.parent = fr.parent)
-    (hk : FnsKeep s s') : ∀ {seg k f}, FnChainF s frames seg k f → (∀ e, k = some e → e < B) →
+    (hk : FnsKeep s s') (hB : s.scopes.length ≤ B) (hsl : s.scopes.length ≤ s'.scopes.length) :
+    ∀ {seg k f}, FnChainF s frames seg k f → (∀ e, k = some e → e < B) →
       Scope.takeToBoundary (isFnScope s') seg = Scope.takeToBoundary (isFnScope s) seg →
       FnChainF s' frames' seg k f := by
   intro seg k f h
@@ -694,6 +782,13 @@ theorem FnChainF.transfer {s s' : St} {frames frames' : List Ref.Frame} (B : Nat
     intro hb hseg
     exact FnChainF.step seg k f p (Nat.lt_of_lt_of_le hlt hk.len) (by rw [hk.parent f hlt]; exact hp) hpf
       (by rw [hseg, hk.closing f hlt]; exact hs) (ih hb hseg)
+  | sfx seg k f p hlt hp hpf hbd hs _ ih =>
+    intro hb hseg
+    have hcl : Scope.takeToBoundary (isFnScope s') (fnOf s f).closing = Scope.takeToBoundary (isFnScope s) (fnOf s f).closing :=
+      ttb_congr _ (fun i hi => hfl i (Nat.lt_of_lt_of_le (hbd i hi) hB))
+    exact FnChainF.sfx seg k f p (Nat.lt_of_lt_of_le hlt hk.len) (by rw [hk.parent f hlt]; exact hp) hpf
+      (by rw [hk.closing f hlt, hcl]; exact fun i hi => Nat.lt_of_lt_of_le (hbd i hi) hsl)
+      (by rw [hseg, hk.closing f hlt, hcl]; exact hs) (ih hb hseg)
   | clos seg e f p k' hlt hp hpf hch _ ih =>
     intro hb _
     have he : e < B := hb e rfl
@@ -763,18 +858,24 @@ theorem GoodFn.mono {m m' : Nat → Nat} {s s' : St} {rs rs' : Ref.St} {vid : Na
     t, b, tl, isFn, cb, gs0, gs1, self, by rw [e]; exact hc1, Nat.lt_of_lt_of_le hc2 hk.len,
     by rw [hk.closing t hc2]; exact hc3, hc4, hc5, hc6, hc7, hc8.mono hk, hc9⟩
   rw [e]
-  exact hfc.transfer s.scopes.length hfl hr.1 hk (fun q hq => Nat.lt_trans (hch.k_lt q hq) hel)
+  exact hfc.transfer s.scopes.length hfl hr.1 hk (Nat.le_refl _) hsl (fun q hq => Nat.lt_trans (hch.k_lt q hq) hel)
     (takeToBoundary_chain hch hfle)
 
+/-- the Go builtins that call back into the machine -/
+def hoB (n : String) : Prop := n = "force" ∨ n = "apply" ∨ n = "map"
+
+/-- the builtins a value of the fragment may hold: the first-order ones and `force`, `apply`, `map` -/
+def okB (n : String) : Prop := n ∈ foBuiltins ∨ hoB n
+
 /-- a value of the VM state is in order: its functions are closure objects with their reference
-closures, its builtins first-order, no stack mark in it -/
+closures, its builtins first-order or `force`, no stack mark in it -/
 def VOk (m : Nat → Nat) (s : St) (rs : Ref.St) (v : Val) : Prop :=
-  ValIn (GoodFn m s rs) (· ∈ foBuiltins) (fun _ => False) v
+  ValIn (GoodFn m s rs) okB (fun _ => False) v
 
 /-- a value bound to the name `x`: in order if `x` is a name the fragment may mention; the global
 bindings of the other builtins (`map`, `apply`, …) are only required to mention good functions -/
 def VOkN (m : Nat → Nat) (s : St) (rs : Ref.St) (x : String) (v : Val) : Prop :=
-  ValIn (GoodFn m s rs) (fun n => okSym x = true → n ∈ foBuiltins) (fun _ => okSym x = false) v
+  ValIn (GoodFn m s rs) (fun n => okSym x = true → okB n) (fun _ => okSym x = false) v
 
 theorem VOkN.ok {m s rs x v} (h : VOkN m s rs x v) (hx : okSym x = true) : VOk m s rs v :=
   ValIn.imp h (fun _ hg => hg) (fun _ hn => hn hx) (fun _ hl => by rw [hx] at hl; cases hl)
@@ -783,7 +884,22 @@ theorem VOk.named {m s rs v} (h : VOk m s rs v) (x : String) : VOkN m s rs x v :
   ValIn.imp h (fun _ hg => hg) (fun _ hn _ => hn) (fun _ hl => hl.elim)
 
 def HOk (m : Nat → Nat) (s : St) (rs : Ref.St) (h : DataHeap) : Prop :=
-  HeapIn (GoodFn m s rs) (· ∈ foBuiltins) (fun _ => False) h
+  HeapIn (GoodFn m s rs) okB (fun _ => False) h
+
+/-- a lazy argument object against the reference thunk: the same expression (an operand of the fragment),
+the memo related, and the captured stack is the static chain of the
+thunk's creation frame, continued along the closing stacks of the function that made the call -/
+structure LzOk (m : Nat → Nat) (s : St) (rs : Ref.St) (lz : LazyObj) (th : Ref.Thunk) : Prop where
+  val : th.value = lz.value.map (trf m)
+  vok : ∀ v, lz.value = some v → VOk m s rs v
+  /-- as long as there is no memo (an object made by `apply`/`map` from a value has one from the start) -/
+  todo : lz.value = none → th.e = lz.e ∧ Ff false "" lz.e = true ∧ th.env < s.scopes.length ∧ lz.stack.getLast? = some (some 0)
+    ∧ ∃ k, ChainF (isFnScope s) rs.frames k th.env lz.stack ∧ FnChainF s rs.frames lz.stack k lz.curfunc
+
+/-- the table of lazy argument objects against the table of thunks: same length, entry by entry -/
+def LazyRel (m : Nat → Nat) (s : St) (rs : Ref.St) : Prop :=
+  s.lazies.length = rs.thunks.length ∧
+    ∀ (id : Nat) (lz : LazyObj), s.lazies[id]? = some lz → ∃ th : Ref.Thunk, rs.thunks[id]? = some th ∧ LzOk m s rs lz th
 
 /-! ## The relation -/
 
@@ -800,6 +916,7 @@ structure RelF (m : Nat → Nat) (s : St) (rs : Ref.St) (env : Nat) : Prop where
   globals : Globals rs
   vok : ∀ i x v, (scopeOf s i).vars.lookup x = some v → VOkN m s rs x v
   hok : HOk m s rs s.heap
+  lz : LazyRel m s rs
 
 /-- **Lookup**: under `RelF`, the three stages of `LexicalLookupSymbol` find what the reference
 lookup finds — same scope/frame index, corresponding values. -/
@@ -836,6 +953,14 @@ theorem RelF.lexLookup {m s rs env} (h : RelF m s rs env) (x : String) :
         have h3 := stage3G x h.fscopes hfl0 (hroot hl) hc h1
         simp only [h3]; exact hlc
     | clos seg e f p k' hlt hp hpf hch hrest =>
+      simp only [hp, Option.isSome_some, if_true]
+      cases hl : lookupChain s x (s.fns.length + 1) s.curfunc with
+      | some r => rw [hl] at hlc; simp only [Option.map_some] at hlc ⊢; exact hlc
+      | none =>
+        rw [hl] at hlc
+        have h3 := stage3G x h.fscopes hfl0 (hroot hl) hc h1
+        simp only [h3]; exact hlc
+    | sfx seg k f p hlt hp hpf hbd hs hrest =>
       simp only [hp, Option.isSome_some, if_true]
       cases hl : lookupChain s x (s.fns.length + 1) s.curfunc with
       | some r => rw [hl] at hlc; simp only [Option.map_some] at hlc ⊢; exact hlc
@@ -910,11 +1035,37 @@ theorem HOk.tr_ext {m m' : Nat → Nat} {s : St} {rs : Ref.St} {h : DataHeap} (h
 
 /-- the relation reads scopes, the live stack, `curfunc`, heap and trace; it survives new function
 objects (old ones unchanged but for the code of `__main`), new closures and a longer id map -/
+theorem LzOk.mono {m m' : Nat → Nat} {s s' : St} {rs rs' : Ref.St} {lz : LazyObj} {th : Ref.Thunk} (h : LzOk m s rs lz th)
+    (hk : FnsKeep s s') (hsl : s.scopes.length ≤ s'.scopes.length)
+    (hfl : ∀ i, i < s.scopes.length → isFnScope s' i = isFnScope s i) (hr : RExt rs rs') (hm : MExt s m m') :
+    LzOk m' s' rs' lz th := by
+  have hgood : ∀ id, GoodFn m s rs id → GoodFn m' s' rs' id := fun id hg => hg.mono hk hsl hfl hr (hm id hg.lt)
+  refine ⟨?_, fun v hv => ValIn.mono (h.vok v hv) hgood, fun hn => ?_⟩
+  · rw [h.val]
+    cases hl : lz.value with
+    | none => rfl
+    | some v =>
+      simp only [Option.map_some]
+      exact congrArg some ((h.vok v hl) m m' id id id id ⟨fun id hg => (hm id hg.lt).symm, fun _ _ => rfl, fun _ _ => rfl⟩)
+  · obtain ⟨he, hex, hel, hb, k, hch, hfc⟩ := h.todo hn
+    have hfle : ∀ i, i ≤ th.env → isFnScope s' i = isFnScope s i := fun i hi => hfl i (by omega)
+    exact ⟨he, hex, Nat.lt_of_lt_of_le hel hsl, hb, k, hch.congr hr.1 hfle,
+      hfc.transfer s.scopes.length hfl hr.1 hk (Nat.le_refl _) hsl (fun q hq => Nat.lt_trans (hch.k_lt q hq) hel) (takeToBoundary_chain hch hfle)⟩
+
+theorem LazyRel.mono {m m' : Nat → Nat} {s s' : St} {rs rs' : Ref.St} (h : LazyRel m s rs)
+    (hk : FnsKeep s s') (hsl : s.scopes.length ≤ s'.scopes.length)
+    (hfl : ∀ i, i < s.scopes.length → isFnScope s' i = isFnScope s i) (hr : RExt rs rs') (hm : MExt s m m')
+    (hlz : s'.lazies = s.lazies := by rfl) (hth : rs'.thunks = rs.thunks := by rfl) : LazyRel m' s' rs' := by
+  refine ⟨by rw [hlz, hth]; exact h.1, fun id lz hl => ?_⟩
+  rw [hlz] at hl
+  obtain ⟨th, h1, h2⟩ := h.2 id lz hl
+  exact ⟨th, by rw [hth]; exact h1, h2.mono hk hsl hfl hr hm⟩
+
 theorem RelF.grow {m m' : Nat → Nat} {s s' : St} {rs rs' : Ref.St} {env : Nat} (h : RelF m s rs env)
     (hsc : s'.scopes = s.scopes) (hlin : s'.linear = s.linear) (hcur : s'.curfunc = s.curfunc)
     (hheap : s'.heap = s.heap) (htr : s'.trace = rs'.trace) (hk : FnsKeep s s')
     (hfr : rs'.frames = rs.frames) (hrh : rs'.heap = rs.heap) (hcl : ClosExt rs rs')
-    (hm : MExt s m m') : RelF m' s' rs' env := by
+    (hm : MExt s m m') (hlz : s'.lazies = s.lazies := by rfl) (hth : rs'.thunks = rs.thunks := by rfl) : RelF m' s' rs' env := by
   have hso : ∀ i, scopeOf s' i = scopeOf s i := fun i => by unfold scopeOf; rw [hsc]
   have hfl' : isFnScope s' = isFnScope s := by funext i; unfold isFnScope; rw [hso]
   have hrext : RExt rs rs' := ⟨fun i fr hf => ⟨fr, by rw [hfr]; exact hf, rfl⟩, hcl⟩
@@ -928,14 +1079,15 @@ theorem RelF.grow {m m' : Nat → Nat} {s s' : St} {rs rs' : Ref.St} {env : Nat}
     by rw [hfr]; exact h.par, by rw [hlin]; exact h.bottom,
     ⟨k, by rw [hfl', hfr, hlin]; exact hc, ?_⟩, ?_, ?_, htr,
     fun hh hmem => by rw [hfr]; exact h.globals hh hmem,
-    fun i x v hv => ValIn.mono (h.vok i x v (by rw [← hso]; exact hv)) hgood, by rw [hheap]; exact HeapIn.mono h.hok hgood⟩
+    fun i x v hv => ValIn.mono (h.vok i x v (by rw [← hso]; exact hv)) hgood, by rw [hheap]; exact HeapIn.mono h.hok hgood,
+    h.lz.mono hk (by rw [hsc]; exact Nat.le_refl _) (fun i _ => by rw [hfl']) hrext hm hlz hth⟩
   · intro i x
     rw [hfr, hso, h.vars i x]
     cases hl : (scopeOf s i).vars.lookup x with
     | none => rfl
     | some v => simp only [Option.map_some, htrv i x v hl]
   · rw [hcur, hlin, hfr]
-    exact hfc.transfer rs.frames.length (fun i _ => by rw [hfl']) (fun i fr hf => ⟨fr, hf, rfl⟩) hk
+    exact hfc.transfer rs.frames.length (fun i _ => by rw [hfl']) (fun i fr hf => ⟨fr, hf, rfl⟩) hk (Nat.le_of_eq h.len) (by rw [hsc]; exact Nat.le_refl _)
       (fun e he => Nat.lt_trans (hc.k_lt e he) hc.lt) (by rw [hfl'])
   · intro i hi
     rw [hfl'] at hi
@@ -959,7 +1111,8 @@ theorem RelF.of_same {m : Nat → Nat} {s s' : St} {rs rs' : Ref.St} {env : Nat}
     (hsc : s'.scopes = s.scopes) (hlin : s'.linear = s.linear) (hfns : s'.fns = s.fns) (hcur : s'.curfunc = s.curfunc)
     (hfr : rs'.frames = rs.frames) (hcl : rs'.clos = rs.clos) (hheap : rs'.heap = trHeap m id id s'.heap)
     (htr : s'.trace = rs'.trace) (hok : HOk m s rs s'.heap)
-    (hloops : LoopsExt s s' := by exact ⟨Nat.le_refl _, fun _ _ => rfl⟩) : RelF m s' rs' env := by
+    (hloops : LoopsExt s s' := by exact ⟨Nat.le_refl _, fun _ _ => rfl⟩)
+    (hlz : s'.lazies = s.lazies := by rfl) (hth : rs'.thunks = rs.thunks := by rfl) : RelF m s' rs' env := by
   have hso : ∀ i, scopeOf s' i = scopeOf s i := fun i => by unfold scopeOf; rw [hsc]
   have hfl : isFnScope s' = isFnScope s := by funext i; unfold isFnScope; rw [hso]
   have hk : FnsKeep s s' := FnsKeep.of_fns_eq hfns hloops
@@ -975,20 +1128,73 @@ theorem RelF.of_same {m : Nat → Nat} {s s' : St} {rs rs' : Ref.St} {env : Nat}
       rw [hfl] at hi; obtain ⟨t, h1, h2⟩ := h.fscopes i hi
       exact ⟨t, by rw [hso]; exact h1, by unfold fnOf; rw [hfns]; exact h2⟩,
     hheap, htr, fun hh hm => by rw [hfr]; exact h.globals hh hm,
-    fun i x v hv => ValIn.mono (h.vok i x v (by rw [← hso]; exact hv)) hgood, HeapIn.mono hok hgood⟩
+    fun i x v hv => ValIn.mono (h.vok i x v (by rw [← hso]; exact hv)) hgood, HeapIn.mono hok hgood,
+    h.lz.mono hk (by rw [hsc]; exact Nat.le_refl _) (fun i _ => by rw [hfl]) hrext (fun _ _ => rfl) hlz hth⟩
   rw [hcur, hlin, hfr]
-  exact hfc.transfer rs.frames.length (fun i _ => by rw [hfl]) (fun i fr hf => ⟨fr, hf, rfl⟩) hk
+  exact hfc.transfer rs.frames.length (fun i _ => by rw [hfl]) (fun i fr hf => ⟨fr, hf, rfl⟩) hk (Nat.le_of_eq h.len) (by rw [hsc]; exact Nat.le_refl _)
     (fun e he => Nat.lt_trans (hc.k_lt e he) hc.lt) (by rw [hfl])
+
+/-- the state seen as running function `f` (inside a Go builtin the relation is stated for the function that called it) -/
+def _root_.ZygoVerif.VM.St.withCur (s : St) (f : Nat) : St := { s with curfunc := f }
+
+theorem withCur_self {s : St} {f : Nat} (h : s.curfunc = f) : s.withCur f = s := by
+  subst h; rfl
 
 theorem RelF.jmp {m s rs env} (h : RelF m s rs env) (p : Int) (d : List (Option Val)) : RelF m (s.jmp p d) rs env :=
   h.of_same rfl rfl rfl rfl rfl rfl h.heap h.trace h.hok
 
+/-- the state after a lazy argument object was made for `e` and pushed -/
+def _root_.ZygoVerif.VM.St.allocLazy (s : St) (e : Expr) : St :=
+  { s with lazies := s.lazies ++ [({ e, stack := s.linear, curfunc := s.curfunc, value := none } : LazyObj)],
+           data := some (.lazy s.lazies.length) :: s.data }
+
+/-- the reference state after a thunk was made for `e` in frame `env` -/
+def allocThunkR (rs : Ref.St) (e : Expr) (env : Nat) : Ref.St :=
+  { rs with thunks := rs.thunks ++ [{ e, env, value := none }] }
+
+/-- **A lazy argument**: both evaluators record the expression and where it was written -/
+theorem RelF.allocLazy {m s rs env} (h : RelF m s rs env) (e : Expr) (he : Ff false "" e = true) :
+    RelF m (s.allocLazy e) (allocThunkR rs e env) env := by
+  obtain ⟨k, hc, hfc⟩ := h.ctx
+  have hk : FnsKeep s (s.allocLazy e) := FnsKeep.of_fns_eq rfl
+  have hgood : ∀ id, GoodFn m s rs id → GoodFn m (s.allocLazy e) (allocThunkR rs e env) id := fun id hg =>
+    hg.mono hk (Nat.le_refl _) (fun _ _ => rfl) ⟨fun i fr hf => ⟨fr, hf, rfl⟩, fun _ _ hc' => hc'⟩ rfl
+  refine ⟨h.len, h.vars, h.root0, h.par, h.bottom, ⟨k, hc, ?_⟩, h.fscopes, h.heap, h.trace, h.globals,
+    fun i x v hv => ValIn.mono (h.vok i x v hv) hgood, HeapIn.mono h.hok hgood, ?_, ?_⟩
+  · exact hfc.transfer (s := s) (s' := s.allocLazy e) (frames' := rs.frames) rs.frames.length (fun _ _ => rfl)
+      (fun i fr hf => ⟨fr, hf, rfl⟩) hk (Nat.le_of_eq h.len) (Nat.le_refl _) (fun q hq => Nat.lt_trans (hc.k_lt q hq) hc.lt) rfl
+  · show (s.lazies ++ [_]).length = (rs.thunks ++ [_]).length
+    simp [h.lz.1]
+  · intro id lz hl
+    have hl' : (s.lazies ++ [({ e, stack := s.linear, curfunc := s.curfunc, value := none } : LazyObj)])[id]? = some lz := hl
+    by_cases hid : id < s.lazies.length
+    · rw [List.getElem?_append_left hid] at hl'
+      obtain ⟨th, h1, h2⟩ := h.lz.2 id lz hl'
+      refine ⟨th, ?_, h2.mono hk (Nat.le_refl _) (fun _ _ => rfl) ⟨fun i fr hf => ⟨fr, hf, rfl⟩, fun _ _ hc' => hc'⟩ (fun _ _ => rfl)⟩
+      show (rs.thunks ++ [_])[id]? = some th
+      rw [List.getElem?_append_left (by rw [← h.lz.1]; exact hid)]; exact h1
+    · have hge : s.lazies.length ≤ id := Nat.le_of_not_lt hid
+      rw [List.getElem?_append_right hge] at hl'
+      have hid0 : id - s.lazies.length = 0 := by
+        rcases Nat.eq_zero_or_pos (id - s.lazies.length) with h0 | h0
+        · exact h0
+        · rw [List.getElem?_eq_none (by simp; omega)] at hl'; cases hl'
+      rw [hid0] at hl'
+      simp only [List.getElem?_cons_zero, Option.some.injEq] at hl'
+      subst hl'
+      refine ⟨{ e, env, value := none }, ?_, ⟨rfl, (fun v hv => by cases hv), fun _ => ⟨rfl, he, ?_⟩⟩⟩
+      · show (rs.thunks ++ [_])[id]? = _
+        rw [List.getElem?_append_right (by rw [← h.lz.1]; exact hge), ← h.lz.1, hid0]; rfl
+      · refine ⟨by show env < s.scopes.length; rw [h.len]; exact hc.lt, h.bottom, k, hc, ?_⟩
+        exact hfc.transfer (s := s) (s' := s.allocLazy e) (frames' := rs.frames) rs.frames.length (fun _ _ => rfl)
+          (fun i fr hf => ⟨fr, hf, rfl⟩) hk (Nat.le_of_eq h.len) (Nat.le_refl _) (fun q hq => Nat.lt_trans (hc.k_lt q hq) hc.lt) rfl
+
 /-- the relation after `LoadExpressions`: more functions, new code in `__main`, the trace cleared -/
 theorem RelF.load {m : Nat → Nat} {s s' : St} {rs : Ref.St} {env : Nat} (h : RelF m s rs env)
     (hsc : s'.scopes = s.scopes) (hlin : s'.linear = s.linear) (hcur : s'.curfunc = s.curfunc)
-    (hheap : s'.heap = s.heap) (htr : s'.trace = []) (hk : FnsKeep s s') :
+    (hheap : s'.heap = s.heap) (htr : s'.trace = []) (hk : FnsKeep s s') (hlz : s'.lazies = s.lazies := by rfl) :
     RelF m s' { rs with trace := [] } env :=
-  h.grow hsc hlin hcur hheap htr hk rfl rfl (ClosExt.refl rs) (MExt.refl s m)
+  h.grow hsc hlin hcur hheap htr hk rfl rfl (ClosExt.refl rs) (MExt.refl s m) hlz rfl
 
 /-! ## Assignments -/
 
@@ -1037,7 +1243,9 @@ theorem RelF.bind {m s rs env} (h : RelF m s rs env) (id : Nat) (hid : id < rs.f
   obtain ⟨fr0, hf0, hp0, hfl0⟩ := h.root0
   refine ⟨?_, ?_, ?_, by rw [hset]; exact h.par.set id fr hfr _, h.bottom, ⟨k, ?_, ?_⟩, ?_,
     by rw [setVar_heap]; exact h.heap, by rw [setVar_trace]; exact h.trace,
-    h.globals.setVar id (okName_binder hx) _, ?_, HeapIn.mono h.hok hgood⟩
+    h.globals.setVar id (okName_binder hx) _, ?_, HeapIn.mono h.hok hgood,
+    h.lz.mono hk (by show s.scopes.length ≤ (s.scopes.set id _).length; simp) (fun i _ => by rw [hfl]) hrext (fun _ _ => rfl) rfl
+      (by unfold Ref.setVar; split <;> rfl)⟩
   · rw [hset]; show (s.scopes.set id _).length = (rs.frames.set id _).length
     simp [h.len]
   · intro i y
@@ -1058,7 +1266,7 @@ theorem RelF.bind {m s rs env} (h : RelF m s rs env) (id : Nat) (hid : id < rs.f
   · obtain ⟨fr0', hf0', hp0'⟩ := hext 0 fr0 hf0
     exact ⟨fr0', hf0', hp0'.trans hp0, by rw [hfl]; exact hfl0⟩
   · exact hc.congr hext (fun i _ => by rw [hfl])
-  · exact hfc.transfer (s' := s.bind id x v) rs.frames.length (fun i _ => by rw [hfl]) hext hk
+  · exact hfc.transfer (s' := s.bind id x v) rs.frames.length (fun i _ => by rw [hfl]) hext hk (Nat.le_of_eq h.len) (by show s.scopes.length ≤ (s.scopes.set id _).length; simp)
       (fun e he => Nat.lt_trans (hc.k_lt e he) hc.lt) (by rw [hfl])
   · intro i hi
     rw [hfl] at hi
@@ -1147,10 +1355,11 @@ theorem relF_inHelper {m : Nat → Nat} {s : St} {rs : Ref.St} {env : Nat} (h : 
   have hgood : ∀ j, GoodFn m s rs j → GoodFn m (inHelper s code) rs j := fun j hg =>
     hg.mono hk (Nat.le_refl _) (fun _ _ => rfl) (RExt.refl rs) rfl
   have hold : FnChainF (inHelper s code) rs.frames s.linear k s.curfunc :=
-    hfc.transfer (s := s) (s' := inHelper s code) (frames' := rs.frames) rs.frames.length (fun _ _ => rfl) (fun i fr hf => ⟨fr, hf, rfl⟩) hk
+    hfc.transfer (s := s) (s' := inHelper s code) (frames' := rs.frames) rs.frames.length (fun _ _ => rfl) (fun i fr hf => ⟨fr, hf, rfl⟩) hk (Nat.le_of_eq h.len) (Nat.le_refl _)
       (fun e he => Nat.lt_trans (hc.k_lt e he) hc.lt) rfl
   refine ⟨h.len, h.vars, h.root0, h.par, h.bottom, ⟨k, hc, ?_⟩, ?_, h.heap, h.trace, h.globals,
-    fun i x v hv => ValIn.mono (h.vok i x v hv) hgood, HeapIn.mono h.hok hgood⟩
+    fun i x v hv => ValIn.mono (h.vok i x v hv) hgood, HeapIn.mono h.hok hgood,
+    h.lz.mono hk (Nat.le_refl _) (fun _ _ => rfl) (RExt.refl rs) (fun _ _ => rfl)⟩
   · refine FnChainF.step s.linear k _ s.curfunc (by show s.fns.length < (s.fns ++ [_]).length; simp) ?_ hfc.lt ?_ hold
     · rw [fnOf_inHelper_self]; rfl
     · rw [fnOf_inHelper_self]
@@ -1174,7 +1383,8 @@ theorem RelF.back {m m₄ : Nat → Nat} {s s₄ s₅ : St} {rs rs₄ : Ref.St} 
     (hlin : s₅.linear = s.linear) (hcur : s₅.curfunc = s.curfunc)
     (hflags : ∀ i, i < s.scopes.length → isFnScope s₄ i = isFnScope s i)
     (hfl : s.fns.length ≤ s₄.fns.length) (hfo : ∀ id, id < s.fns.length → fnOf s₄ id = fnOf s id)
-    (hext : FramesExt rs rs₄) (hle : LoopsExt s s₄) (hloops : s₅.loops = s₄.loops := by rfl) : RelF m₄ s₅ rs₄ env := by
+    (hext : FramesExt rs rs₄) (hle : LoopsExt s s₄) (hloops : s₅.loops = s₄.loops := by rfl)
+    (hlz : s₅.lazies = s₄.lazies := by rfl) : RelF m₄ s₅ rs₄ env := by
   have hso : ∀ i, scopeOf s₅ i = scopeOf s₄ i := fun i => by unfold scopeOf; rw [hsc]
   have hfo5 : ∀ i, fnOf s₅ i = fnOf s₄ i := fun i => by unfold fnOf; rw [hfns]
   have hfl5 : isFnScope s₅ = isFnScope s₄ := by funext i; unfold isFnScope; rw [hso]
@@ -1195,9 +1405,17 @@ theorem RelF.back {m m₄ : Nat → Nat} {s s₄ s₅ : St} {rs rs₄ : Ref.St} 
     fun i hi => by rw [hfl5] at hi; obtain ⟨t, h1, h2⟩ := rel4.fscopes i hi; exact ⟨t, by rw [hso]; exact h1, by rw [hfo5]; exact h2⟩,
     by rw [hheap]; exact rel4.heap, by rw [htr]; exact rel4.trace, rel4.globals,
     fun i x v hv => ValIn.mono (rel4.vok i x v (by rw [← hso]; exact hv)) hgood,
-    by rw [hheap]; exact HeapIn.mono rel4.hok hgood⟩
+    by rw [hheap]; exact HeapIn.mono rel4.hok hgood,
+    rel4.lz.mono (FnsKeep.of_fns_eq hfns (LoopsExt.of_eq hloops)) (by rw [hsc]; exact Nat.le_refl _) (fun i _ => by rw [hfl5])
+      (RExt.refl _) (fun _ _ => rfl) hlz rfl⟩
+  have hsl5 : s.scopes.length ≤ s₅.scopes.length := by
+    rw [hsc, rel4.len, hrel.len]
+    refine Nat.le_of_not_lt (fun hlt => ?_)
+    obtain ⟨fr', hf', _⟩ := hext rs₄.frames.length (rs.frames[rs₄.frames.length]) (by simp [hlt])
+    have := lt_of_getElem?_some hf'
+    omega
   rw [hcur, hlin]
-  exact hfc.transfer s.scopes.length hflr hext hk5 (fun e he => Nat.lt_trans (hc.k_lt e he) henv)
+  exact hfc.transfer s.scopes.length hflr hext hk5 (Nat.le_refl _) hsl5 (fun e he => Nat.lt_trans (hc.k_lt e he) henv)
     (takeToBoundary_chain hc (fun i hi => hflr i (by omega)))
 
 /-! ## Entering a function: the machine -/
@@ -1374,7 +1592,8 @@ theorem RelF.enter {m : Nat → Nat} {s₁ : St} {rs₁ : Ref.St} {env vid e : N
     (ht : (fnOf s₁ t).closing = [some 0])
     (hL : ∀ y, Lref.lookup y = (Lvm.lookup y).map (trf m))
     (hLok : ∀ y v, Lvm.lookup y = some v → VOk m s₁ rs₁ v)
-    (hLfo : ∀ h ∈ foBuiltins, Lref.lookup h = none) (hloops : sB.loops = s₁.loops := by rfl) :
+    (hLfo : ∀ h ∈ foBuiltins, Lref.lookup h = none) (hloops : sB.loops = s₁.loops := by rfl)
+    (hlz : sB.lazies = s₁.lazies := by rfl) (hth : rsB.thunks = rs₁.thunks := by rfl) :
     RelF m sB rsB rs₁.frames.length := by
   have hlen := h.len
   obtain ⟨k, hc, hfc⟩ := h.ctx
@@ -1413,7 +1632,8 @@ theorem RelF.enter {m : Nat → Nat} {s₁ : St} {rs₁ : Ref.St} {env vid e : N
   refine ⟨by rw [hsc, hfr]; simp [hlen], ?_, ⟨fr0, by rw [hfr, List.getElem?_append_left hpos]; exact hf0, hp0,
       by rw [hfl_old 0 (by rw [hlen]; exact hpos)]; exact hfl0⟩, by rw [hfr]; exact h.par.push Lref e helt,
     by rw [hlin, getLast?_cons_ne _ (by rw [hlrest]; simp)]; exact h.bottom, ⟨some e, ?_, ?_⟩, ?_,
-    by rw [hrheap, hheap]; exact h.heap, by rw [htr, hrtr]; exact h.trace, ?_, ?_, by rw [hheap]; exact HeapIn.mono h.hok hgood⟩
+    by rw [hrheap, hheap]; exact h.heap, by rw [htr, hrtr]; exact h.trace, ?_, ?_, by rw [hheap]; exact HeapIn.mono h.hok hgood,
+    h.lz.mono hk (by rw [hsc]; simp) hfl_old hrext (fun _ _ => rfl) hlz hth⟩
   · -- vars
     intro i x
     rcases Nat.lt_trichotomy i rs₁.frames.length with hi | hi | hi
@@ -1578,6 +1798,7 @@ theorem FnChainF.seg_congr {s : St} {frames : List Ref.Frame} {seg seg' : List (
   | root seg f hlt hp hs => exact FnChainF.root seg' f hlt hp (by rw [h]; exact hs)
   | step seg k f p hlt hp hpf hs _ ih => exact FnChainF.step seg' k f p hlt hp hpf (by rw [h]; exact hs) (ih h)
   | clos seg e f p k' hlt hp hpf hch hrest _ => exact FnChainF.clos seg' e f p k' hlt hp hpf hch hrest
+  | sfx seg k f p hlt hp hpf hbd hs _ ih => exact FnChainF.sfx seg' k f p hlt hp hpf hbd (by rw [h]; exact hs) (ih h)
 
 /-- the id map extended by a new closure object -/
 def mapWith (m : Nat → Nat) (vid cid : Nat) : Nat → Nat := fun id => if id = vid then cid else m id
@@ -1621,7 +1842,7 @@ theorem GoodFn.create {m : Nat → Nat} {s : St} {rs : Ref.St} {env : Nat} (h : 
   · rw [hnew1, hcl]
     have h2 : FnChainF (afterClosure s t) rs.frames s.linear k s.curfunc :=
       hfc.transfer (s := s) (s' := afterClosure s t) (frames' := rs.frames) rs.frames.length (fun _ _ => rfl)
-        (fun i fr hf => ⟨fr, hf, rfl⟩) hk (fun e he => Nat.lt_trans (hc.k_lt e he) hc.lt) rfl
+        (fun i fr hf => ⟨fr, hf, rfl⟩) hk (Nat.le_of_eq h.len) (Nat.le_refl _) (fun e he => Nat.lt_trans (hc.k_lt e he) hc.lt) rfl
     exact h2.seg_congr (takeToBoundary_idem _ _)
   · rw [hnew1]; exact hcd
   · rw [hfo1 t htlt]; exact htclo
@@ -1649,6 +1870,11 @@ theorem FnChainF.push {s : St} {frames : List Ref.Frame} {seg : List (Option Nat
       simp only [Scope.takeToBoundary, hx, Bool.false_eq_true, if_false]
     exact FnChainF.step _ k f p hlt hp hpf ⟨x :: t, by rw [htt', ht]; rfl⟩ (ih htt')
   | clos seg e f p k' hlt hp hpf hch hrest _ => exact FnChainF.clos _ e f p k' hlt hp hpf hch hrest
+  | sfx seg k f p hlt hp hpf hbd hs _ ih =>
+    obtain ⟨t, ht⟩ := hs
+    have htt' : Scope.takeToBoundary (isFnScope s) (x :: seg) = x :: Scope.takeToBoundary (isFnScope s) seg := by
+      simp only [Scope.takeToBoundary, hx, Bool.false_eq_true, if_false]
+    exact FnChainF.sfx _ k f p hlt hp hpf hbd ⟨x :: t, by rw [htt', ht]; rfl⟩ (ih htt')
 
 /-- `addScope` against `newFrame`: a fresh scope on top, a fresh frame under the current one -/
 theorem RelF.pushScope {m s rs env} (h : RelF m s rs env) :
@@ -1676,7 +1902,8 @@ theorem RelF.pushScope {m s rs env} (h : RelF m s rs env) :
     by show ParOk (rs.frames ++ [({ vars := [], parent := some env } : Ref.Frame)]); exact h.par.push [] env hlt,
     by show (some s.scopes.length :: s.linear).getLast? = _; rw [getLast?_cons_ne _ (by rw [hlrest]; simp)]; exact h.bottom,
     ⟨k, ?_, ?_⟩, ?_, h.heap, h.trace, h.globals.newFrame env (fun e => by rw [e] at hpos; cases hpos), ?_,
-    HeapIn.mono h.hok hgood⟩
+    HeapIn.mono h.hok hgood,
+    h.lz.mono hk (by show s.scopes.length ≤ (s.scopes ++ [_]).length; simp) hflo hrext (fun _ _ => rfl)⟩
   · intro i x
     rw [scopeOf_pushScope]
     show ((rs.frames ++ [_]).getD i {}).vars.lookup x = _
@@ -1694,7 +1921,7 @@ theorem RelF.pushScope {m s rs env} (h : RelF m s rs env) :
     refine ChainF.cons k rs.frames.length env { parent := some env } s.linear (by simp) rfl hlt
       (by rw [← hlen]; exact hfln) (hc.congr hext (fun i hi => hflo i (by rw [hlen]; omega)))
   · have h2 : FnChainF s.pushScope (rs.frames ++ [({ parent := some env } : Ref.Frame)]) s.linear k s.curfunc :=
-      hfc.transfer (s := s) (s' := s.pushScope) s.scopes.length hflo hext hk
+      hfc.transfer (s := s) (s' := s.pushScope) s.scopes.length hflo hext hk (Nat.le_refl _) (by show s.scopes.length ≤ (s.scopes ++ [_]).length; simp)
         (fun e he => by rw [hlen]; exact Nat.lt_trans (hc.k_lt e he) hlt)
         (takeToBoundary_chain hc (fun i hi => hflo i (by rw [hlen]; omega)))
     exact h2.push (some s.scopes.length) hfln
